@@ -1,1 +1,252 @@
-/-! C01 — property theorems (stub: nothing proved yet). -/
+import B6.Lemmas.CompactIndexRecords
+/-!
+# C01 — the compact index round-trips every feature it accepts
+
+Model: `B6/Model/CompactIndex.lean` (`build`, `find`, `each`, `decodeFeature`, `canon`, `Accepts`), on top of the
+record codecs of `B6/Model/Records.lean` (C11) and the entry view of `Uint64Map` (C09).  Proofs are in
+`B6/Lemmas/CompactIndex{Values,Records}.lean`; everything here is kernel-only (`propext`, `Classical.choice`,
+`Quot.sound`).
+
+What is proved, for ALL strings tables, namespace tables, ids (every 64-bit value), tag lists and geometries:
+
+* the writer/reader pairs below the feature level: namespace table and string table lookups
+  (`table_lookup`), `TypeAndNamespace` packing without `bv_decide` (`type_ns_kernel`), references
+  (`reference_roundtrip`, `reference_never_invalid`), tag values with their kinds (`value_roundtrip`,
+  `value_roundtrip_plain`), tag lists (`tags_roundtrip`, `tags_roundtrip_plain`);
+* the feature records: what `decodeFeature` (the reader: `newPhysicalFeatureFromTagged`,
+  `newWrappedPhysicalFeatureFromBuffer`, `marshalledRelation.fillMembers`, `MarshalledTags.AllTags`,
+  `fromCompactValue`) makes of the bytes `pathRecord` / `relationRecord` / the point scratch entry
+  produce is the source feature — `point_roundtrip`, `path_roundtrip`, `relation_roundtrip` — with the
+  reader using the header of the block the record lives in and the writer the namespaces build.go passes;
+* `primary_agree`: for every (record, field) the primary namespace the writer marshals against is the one
+  the reader unmarshals against (table transcribed from build.go / encoding.go / world.go; `by decide`).
+
+What is not proved and stays visible as a statement: `area_roundtrip_statement` (the area record: the
+geometry bookkeeping `refStarts` / `bounds` / `splitAt`) and `compact_roundtrip_statement` (the index level:
+block routing by namespace, lookup by id among distinct ids, `each` a duplicate free permutation).  Both are
+carried by the correspondence run, which compares every block byte for byte and every `find` / `each` answer.
+
+Counterexamples (the code before the repairs, and the recorded finding): `mixed_path_nil_counterexample`,
+`relation_relations_primary_counterexample`, `fid_tag_value_counterexample`.
+-/
+namespace B6.Props.C01
+open B6.Model.CompactIndex B6.Model.Records B6.Model.Varint
+open B6.Model.Bits (combineTypeNs splitTypeNs)
+
+/-! ## tables -/
+
+/-- the index the writer gets for a string / namespace is an index at which the reader finds it — for every
+table (any order, duplicates or not: the string table is an arbitrary parameter). -/
+theorem table_lookup (tbl : List Str) (s : Str) (i : Nat) (h : tbl.findIdx? (· == s) = some i) :
+    tbl[i]? = some s ∧ i < tbl.length :=
+  ⟨findIdx?_getElem? s tbl i h, findIdx?_lt _ tbl i h⟩
+
+example : strId [[97], [98], [97]] [98] = some 1 ∧ nsEncode (nsTable []) nsOsmWay = some 3 := by decide
+
+/-- `Split(Combine(t, ns)) = (t, ns)` for `t < 8`, `ns < 2^13`, kernel-only (C10 `type_ns` uses `bv_decide`). -/
+theorem type_ns_kernel (t n : Nat) (ht : t < 8) (hn : n < 8192) :
+    splitTypeNs (combineTypeNs (BitVec.ofNat 64 t) (BitVec.ofNat 16 n)) = (BitVec.ofNat 64 t, BitVec.ofNat 16 n) :=
+  split_combine t n ht hn
+
+example : splitTypeNs (combineTypeNs 3#64 8191#16) = (3#64, 8191#16) := by decide
+
+/-- a feature id written as a `Reference` reads back (table of at most 2^13 namespaces, type below 8). -/
+theorem reference_roundtrip (nt : List Str) (hnt : nt.length ≤ 8192) (id : FID) (ht : id.typ < 8) (r : Reference)
+    (h : mkRef nt id = some r) : unRef nt r = some id :=
+  unRef_mkRef nt hnt id ht r h
+
+/-- … and is never mistaken for the "no reference" marker of a mixed path. -/
+theorem reference_never_invalid (nt : List Str) (hnt : NtOK nt) (id : FID) (hok : id.ok = true) (r : Reference)
+    (h : mkRef nt id = some r) : r ≠ Reference.invalid :=
+  mkRef_ne_invalid nt hnt id hok r h
+
+example : (mkRef (nsTable []) ⟨0, nsOsmNode, (2 ^ 63 + 5 : Nat)⟩).bind (unRef (nsTable [])) = some ⟨0, nsOsmNode, (2 ^ 63 + 5 : Nat)⟩ := by
+  decide
+
+/-! ## tag values and tags -/
+
+/-- every representable tag value — string, point, list of references / lat-lngs / both — comes back with its
+kind, whatever geometry encoding `e` the writer chose, provided the writer did not panic. -/
+theorem value_roundtrip (c : Ctx) (hc : CtxOK c) (e : Option Nat) (v : Val) (hv : v.ok = true) (cv : Value)
+    (h : toCompactValue c e v = some cv) : fromCompactValue c.strs (some c.nt) cv = some v :=
+  fromCompact_toCompact c hc e v hv cv h
+
+/-- the readers that pass a nil namespace table (points, areas, relations) get strings and points back. -/
+theorem value_roundtrip_plain (c : Ctx) (hs : c.strs.length ≤ 2 ^ 64) (e : Option Nat) (v : Val)
+    (hv : v.plain = true) (cv : Value) (h : toCompactValue c e v = some cv) :
+    fromCompactValue c.strs none cv = some v :=
+  fromCompact_toCompact_plain c hs e v hv cv h
+
+/-- `MarshalledTags.AllTags` on what `Tags.FromFeature` + `Tags.Marshal` wrote, followed by any bytes:
+the same keys, values and value kinds in the same order. -/
+theorem tags_roundtrip (c : Ctx) (hc : CtxOK c) (f : Feature) (hvals : ∀ t ∈ f.tags, t.val.ok = true)
+    (ts : List Tag) (h : toCompactTags c f = some ts) (hok : Tags.ok ts = true) (tns : BitVec 16) (rest : Bytes) :
+    allTags c.strs (some c.nt) tns (Tags.enc tns ts ++ rest) = some f.tags :=
+  allTags_roundtrip c hc f hvals ts h hok tns rest
+
+theorem tags_roundtrip_plain (c : Ctx) (hs : c.strs.length ≤ 2 ^ 64) (f : Feature)
+    (hvals : ∀ t ∈ f.tags, t.val.plain = true) (ts : List Tag) (h : toCompactTags c f = some ts)
+    (hok : Tags.ok ts = true) (tns : BitVec 16) (rest : Bytes) :
+    allTags c.strs none tns (Tags.enc tns ts ++ rest) = some f.tags :=
+  allTags_roundtrip_plain c hs f hvals ts h hok tns rest
+
+/-! ## feature records -/
+
+/-- **points**: whatever `combinePoints` appends (a path reference, sorted reference lists), the record
+starts with the point's `PointTag` entry and the reader returns the point's tags. -/
+theorem point_roundtrip (c : Ctx) (hs : c.strs.length ≤ 2 ^ 64) (f : Feature)
+    (hvals : ∀ t ∈ f.tags, t.val.plain = true) (ts : List Tag) (h : toCompactTags c f = some ts)
+    (hok : Tags.ok ts = true) (rest : Bytes) (hdr : Namespaces) (id : FID) (hid : id.typ = 0) :
+    decodeFeature c.strs c.nt hdr id (Tags.enc 0#16 ts ++ rest) = some { id := id, tags := f.tags } :=
+  point_record_roundtrip c hs f hvals ts h hok rest hdr id hid
+
+/-- **paths**: the record `pathRecord` builds (tags incl. the geometry by reference / lat-lng / mixed, areas,
+relations) read through any block header gives back the tag list — point sequence, references and kinds. -/
+theorem path_roundtrip (c : Ctx) (hc : CtxOK c) (fs : List Feature) (g : Feature)
+    (hvals : ∀ t ∈ g.tags, t.val.ok = true) (data : Bytes) (h : pathRecord c fs g = .ok data)
+    (hdr : Namespaces) (id : FID) (hid : id.typ = 1) :
+    decodeFeature c.strs c.nt hdr id data = some { id := id, tags := g.tags } :=
+  path_record_roundtrip c hc fs g hvals data h hdr id hid
+
+/-- **relations**: tags and members (role and id of every member type) through the header of the relation's
+own block. -/
+theorem relation_roundtrip (c : Ctx) (hc : CtxOK c) (fs : List Feature) (g : Feature)
+    (hvals : ∀ t ∈ g.tags, t.val.plain = true) (hms : ∀ m ∈ g.members, m.id.typ < 4) (data : Bytes)
+    (h : relationRecord c fs g = .ok data) (n : Nat) (hn : nsEncode c.nt g.id.ns = some n) (id : FID) (hid : id.typ = 3) :
+    decodeFeature c.strs c.nt (blockHeader c 3 n) id data = some { id := id, tags := g.tags, members := g.members } :=
+  relation_record_roundtrip c hc fs g hvals hms data h n hn id hid
+
+/-! ## a concrete index (non-vacuity of everything above, and a test of the statements below) -/
+
+def nsCustom : Str := [97, 47, 98]   -- "a/b"
+def sName : Str := [110]
+def sVal : Str := [118]
+def p1 : LatLng := ⟨515000000#32, BitVec.ofInt 32 (-1200000)⟩
+def p2 : LatLng := ⟨515000000#32, BitVec.ofInt 32 (-1100000)⟩
+def p3 : LatLng := ⟨515100000#32, BitVec.ofInt 32 (-1100000)⟩
+def exPoint (v : Nat) (p : LatLng) : Feature := { id := ⟨0, nsOsmNode, v⟩, tags := [⟨kPoint, .pt p⟩] }
+/-- three points (one with the top bit set), a mixed closed path, an area over it + an explicit triangle, a
+relation in a custom namespace with a member of every type -/
+def exFeatures : List Feature :=
+  [exPoint 1 p1, exPoint 2 p2, exPoint (2 ^ 63 + 5) p3,
+   { id := ⟨1, nsCustom, 7⟩, oracle := 1,
+     tags := [⟨sName, .str sVal⟩, ⟨kPath, .list [.ref ⟨0, nsOsmNode, 1⟩, .ll p2, .ref ⟨0, nsOsmNode, (2 ^ 63 + 5 : Nat)⟩, .ref ⟨0, nsOsmNode, 1⟩]⟩] },
+   { id := ⟨2, nsCustom, 7⟩, polys := [.paths [⟨1, nsCustom, 7⟩], .loops [[p1, p2, p3]]] },
+   { id := ⟨3, nsCustom, (2 ^ 64 - 1 : Nat)⟩, tags := [⟨sName, .str sName⟩],
+     members := [⟨sVal, ⟨0, nsOsmNode, 2⟩⟩, ⟨[], ⟨1, nsCustom, 7⟩⟩, ⟨sName, ⟨2, nsCustom, 7⟩⟩, ⟨[], ⟨3, nsCustom, (2 ^ 64 - 1 : Nat)⟩⟩] }]
+def exStrs : List Str := [sName, kPoint, kPath, sVal, []]
+
+example : Accepts exStrs exFeatures = true := by decide
+
+/-- the whole pipeline on this one index (a labelled test, not the theorem): the build succeeds, every feature
+is found as its canonical form, `each` lists every id exactly once -/
+def exRoundTrips : Bool :=
+  match build exStrs exFeatures with
+  | .ok ix => exFeatures.all (fun (f : Feature) => decide (find ix f.id = some (some (canon exFeatures f)))) &&
+      decide ((each ix).eraseDups.length = exFeatures.length) && decide ((each ix).length = exFeatures.length) &&
+      exFeatures.all (fun (f : Feature) => (each ix).contains f.id)
+  | .error _ => false
+example : exRoundTrips = true := by decide +kernel
+
+/-! ## statements carried by the correspondence run (NOT proved) -/
+
+/-- the area record: tags, and polygons by path ids / explicit loops / both, read through the header of the
+area's own block. -/
+def area_roundtrip_statement : Prop :=
+  ∀ (c : Ctx) (_ : CtxOK c) (fs : List Feature) (g : Feature) (_ : featureOK fs g = true) (_ : g.id.typ = 2)
+    (data : Bytes) (_ : areaRecord c fs g = .ok data) (n : Nat),
+    decodeFeature c.strs c.nt (blockHeader c 2 n) g.id data = some { id := g.id, tags := g.tags, polys := canonPolys g.polys }
+
+/-- **the property**: on every accepted feature set the build succeeds, every feature is found by its id as
+its canonical form, and `each` enumerates every id exactly once. -/
+def compact_roundtrip_statement : Prop :=
+  ∀ (strs : List Str) (fs : List Feature), Accepts strs fs = true →
+    ∃ ix, build strs fs = .ok ix ∧
+      (∀ f ∈ fs, find ix f.id = some (some (canon fs f))) ∧
+      (each ix).Perm (fs.map (·.id)) ∧ (each ix).Nodup
+
+/-! ## writer and reader primaries -/
+
+/-- where a primary namespace comes from: `OSMNamespaces(nt)[t]` (what build.go passes), the `Namespaces[t]` of
+the header of the block the record is in (what world.go passes), or `TypeAndNamespaceInvalid` -/
+inductive NsSrc where
+  | osm (t : Nat)
+  | hdr (t : Nat)
+  | invalid
+deriving DecidableEq, Repr
+
+structure PrimaryUse where
+  record : String
+  field : String
+  blockType : Nat      -- feature type of the block the record is written to
+  writer : NsSrc
+  reader : NsSrc
+deriving Repr
+
+/-- the header of a block of type `b` is the OSM namespaces with entry `b` replaced (`addFeatureBlockBuilder`) -/
+def resolve (b : Nat) : NsSrc → Option (Nat × Bool)   -- (feature type whose OSM namespace is meant, or the block's own)
+  | .osm t => some (t, false)
+  | .hdr t => some (t, t == b)
+  | .invalid => none
+
+/-- transcribed from `emitPoints` / `combinePoints` / `emitPathsAreasAndRelations` (writers) and
+`findPathsByPoint` / `newWrappedPhysicalFeatureFromBuffer` / `fillGeometry` / `fillMembers` /
+`fillRelationsFrom*` / `FindAreasByPoint` (readers); the type half of every primary is the same literal on both
+sides (`CommonPoint.Marshal/Unmarshal` … in encoding.go) -/
+def primaryTable : List PrimaryUse :=
+  [⟨"Point", "Tags", 0, .invalid, .invalid⟩,
+   ⟨"CommonPoint", "Path", 0, .osm 1, .hdr 1⟩,
+   ⟨"PointReferences", "Paths", 0, .osm 1, .hdr 1⟩,
+   ⟨"PointReferences", "Relations", 0, .osm 3, .hdr 3⟩,
+   ⟨"Path", "Tags", 1, .osm 0, .osm 0⟩,
+   ⟨"Path", "Areas", 1, .osm 2, .hdr 2⟩,
+   ⟨"Path", "Relations", 1, .osm 3, .hdr 3⟩,
+   ⟨"Area", "Tags", 2, .invalid, .invalid⟩,
+   ⟨"Area", "Polygons", 2, .osm 1, .hdr 1⟩,
+   ⟨"Area", "Relations", 2, .osm 3, .hdr 3⟩,
+   ⟨"Relation", "Tags", 3, .invalid, .invalid⟩,
+   ⟨"Relation", "Members", 3, .hdr 1, .hdr 1⟩,
+   ⟨"Relation", "Relations", 3, .hdr 3, .hdr 3⟩]
+
+/-- for every record field the writer's and the reader's primary namespace coincide -/
+theorem primary_agree : ∀ u ∈ primaryTable, resolve u.blockType u.writer = resolve u.blockType u.reader := by decide
+
+/-- before fixes/C01-relation-relations-primary.patch the relation record was marshalled with
+`&osmNamespaces`: the `Relations` row read `.osm 3` against `.hdr 3` in a block of type 3 -/
+theorem primary_agree_old_counterexample :
+    resolve 3 (NsSrc.osm 3) ≠ resolve 3 (NsSrc.hdr 3) := by decide
+
+/-! ## the code before the repairs, and the recorded finding -/
+
+/-- `fromCompactValue` before fixes/C01-mixed-path-nil.patch: after every lat/lng it also appended the (nil)
+reference; `none` stands for the nil expression -/
+def fromCompactMixedOld (nt : List Str) (l : List RefLL) : List (Option Elem) :=
+  l.flatMap fun x =>
+    if x.ref != Reference.invalid then [(unRef nt x.ref).map Elem.ref]
+    else [some (Elem.ll x.ll), none]
+
+/-- path [ref, lat/lng, ref] came back with four elements, one of them nil (`GeometryLen` = 4, `PointAt(2)`
+panics "Expected a latlng" — the fatal crash seen while the search index was built) -/
+theorem mixed_path_nil_counterexample :
+    fromCompactMixedOld (nsTable []) [⟨⟨1#16, 1#64⟩, LatLng.zero⟩, ⟨Reference.invalid, p2⟩, ⟨⟨1#16, 3#64⟩, LatLng.zero⟩]
+      = [some (.ref ⟨0, nsOsmNode, 1#64⟩), some (.ll p2), none, some (.ref ⟨0, nsOsmNode, 3#64⟩)] := by decide
+
+/-- relation 9 of namespace 5 recorded in a relation of namespace 5: written against the OSM relation
+namespace (2) it is explicit; read against the block's namespace (5) it is taken for a zigzag delta and comes
+back as relation −5 … and a reference to OSM relation 9 comes back in namespace 5 -/
+theorem relation_relations_primary_counterexample :
+    (References.dec (combineTypeNs 3#64 5#16) (References.enc (combineTypeNs 3#64 2#16) [⟨combineTypeNs 3#64 5#16, 9#64⟩])).map (·.1)
+      = some [⟨combineTypeNs 3#64 5#16, BitVec.ofInt 64 (-5)⟩] ∧
+    (References.dec (combineTypeNs 3#64 5#16) (References.enc (combineTypeNs 3#64 2#16) [⟨combineTypeNs 3#64 2#16, 9#64⟩])).map (·.1)
+      = some [⟨combineTypeNs 3#64 5#16, 9#64⟩] := by decide
+
+/-- **finding `fid-tag-value`** (not repaired: needs a new value type in the index format): a tag whose value
+is one feature id is written as a bare `Reference`; the reader infers the value type from the low two bits of
+the first varint.  `point/<namespace 1>/7` reads as type 3 — `inferValueType` panics ("not implemented", fatal
+while the search index is built) — and `point/<namespace 2>/7` reads back as a *point* value. -/
+theorem fid_tag_value_counterexample :
+    Tag.dec 0#16 (putUvarint 4 ++ Reference.enc 0#16 ⟨1#16, 7#64⟩) = none ∧
+    (Tag.dec 0#16 (putUvarint 4 ++ Reference.enc 0#16 ⟨2#16, 7#64⟩ ++ [0, 0, 0])).map (·.1.value)
+      = some (Value.point ⟨BitVec.ofInt 32 (-1), 7#32⟩) := by decide
+
+end B6.Props.C01
